@@ -159,6 +159,10 @@ def run(ctx):
                 ctx.sample({'config': cfg, 'fn': name, 'kind': kind, 'certificate': note})
         ctx.floor('square matrix types (%s)' % cfg, len(types), 7)
         ctx.floor('matrix algebra instances (%s)' % cfg, sum(counts.values()), 130)
+        # Sum / Product over iterators: left folds of + from ZERO and of * from the identity (generic bodies, rules/fold.py)
+        import fold
+        nfold = fold.check_folds(ctx, cfg, F, H, lambda tn: 'float' if tn in ('Mat2', 'Mat3', 'Mat3A', 'Mat4', 'DMat2', 'DMat3', 'DMat4') else None, done, product_unit=lambda tn, n: {4: [1, 0, 0, 1], 9: [1, 0, 0, 0, 1, 0, 0, 0, 1], 16: [1, 0, 0, 0, 0, 1, 0, 0, 0, 0, 1, 0, 0, 0, 0, 1]}.get(n))
+        ctx.floor('Sum / Product impls (%s)' % cfg, nfold, 28)
         for k, v in sorted(counts.items()):
             ctx.count('%s:%s' % (k, cfg), v)
     ctx.extra['exhaustive'] = True
